@@ -25,7 +25,7 @@ CHECKS = {
    note="Trusted: gates/whoami are harness functions registered in the VM (request = goroutine). The superglobal cache defect is a recorded known finding, matched per interleaving by the deviation layer; the parallel part does not run under -race because the known defect itself is a data race on package variables.",
    tech="TLA+ spec (Superglobals.tla, reference + deviation layer) checked by TLC; all interleavings of its graph forced on a real HTTP server through gates; parallel-vs-alone replay"),
  "C19": dict(cat="model_checking", ref="§5 C19",
-   text="TLC model-checks spec/Generic.tla (Independence and WritesDoNotRetype as action properties, ExactlyOwnType) and prints its state graph; every sequence of up to 3 (quick) / 4 (thorough) instantiations and typed member writes over Box<T> and Pair<K,V> x {int,string,array,class} is replayed as a script and each write's acceptance compared with the reference verdict; wrong verdicts are classified by the deviation layer (first-instantiation-wins: fixed; params-unchecked: known finding); seeded sequences up to length 6 from TLC -simulate.",
+   text="TLC model-checks spec/Generic.tla (Independence and WritesDoNotRetype as action properties, ExactlyOwnType) and prints its state graph; every sequence of up to 3 (quick) / 4 (thorough) instantiations and typed member writes over Box<T> and Pair<K,V> x {int,string,array,class} is replayed as a script and each write's acceptance compared with the reference verdict; wrong verdicts are classified by the deviation layer (first-instantiation-wins: fixed; params-unchecked: fixed); seeded sequences up to length 6 from TLC -simulate.",
    note="Trusted: acceptance is observed as completion vs. catchable Throwable; fixture classes as listed in the evidence assumptions.",
    tech="TLA+ spec (Generic.tla, reference + deviation layer) checked by TLC; state-graph paths replayed as scripts"),
  "C08": dict(cat="model_checking", ref="§5 C08",
@@ -56,6 +56,10 @@ CHECKS = {
    text="spec/Expr.tla holds the operator table as data (24 binary operators on 13 levels with associativity, prefix ! - ~), MinPrint / FullPrint of expression trees and a precedence-climbing ParseByTable; TLC checks on every tree of the pairs, unary and triples families (1152 + 291 + 69120 trees) that parsing the minimal printing by the table gives the tree back (ParsePrintRoundTrip), i.e. that exactly the redundant parentheses were dropped. Every pair and unary tree and a sample (thorough: a third) of the triples is rendered in three styles (variables, spaced literals, literals glued to the preceding operator) with six operand tuples and both printings are evaluated by the real interpreter; they must agree. The other grouping of each pair is evaluated too, to count the operator pairs whose groupings are actually told apart by some tuple.",
    note="Trusted: the real interpreter's evaluation of fully parenthesised expressions as the value oracle (C04 is about grouping only). Ternary, assignment operators and casts are not in the tree model (stated limitation; the cast-precedence defect listed in DESIGN is not covered by this check).",
    tech="TLA+ spec of the operator table with print/parse round-trip checked by TLC; every tree replayed in minimal and full parenthesisation on the real interpreter"),
+ "C07": dict(cat="model_checking", ref="§5 C07",
+   text="spec/Access.tla has three aspects. vis: a member (property | method x public | protected | private x static or not) declared in D is read, written or called through a path (->, $this->, ->$name, [\"name\"], Cls::, self::, static::, parent::) from a site (declaring class, closure in it, subclass, grand-child, unrelated class, top level) on a D or an S object; Allowed(mod, site) is the reference. type: 8 declared types (int, string, array, class, interface, ?int, ?class, int|string) x 10 runtime value kinds x 10 boundaries (typed property, static property, parameter of function / method / static method / constructor / closure, return of function / method / closure); Accepts is exact. inst: 16 class shapes (abstract, interface, abstract method left open by parent / grandparent / interface / parent interface, ...). TLC enumerates every scenario as an initial state (465 + 800 + 16) with the reference verdict and the verdict of a named-deviation layer; each is rendered into a class fixture (names and an optional middle class vary with VERIF_SEED; thorough: 8 variants) and run on the real interpreter: denied cases must raise a catchable error, leave the member unchanged and not run the method body; accepted values must arrive === unchanged.",
+   note="Trusted: reading a member from inside the declaring class (peek) as the observation of its value. Accesses the reference allows but the interpreter refuses are not violations (counted in coverage.allowed_but_denied, vacuity guard at one third). Six named deviations are open known findings (static members unchecked, private checked as protected, null accepted by typed parameters, typed static property unchecked, closure return type dropped, method null return coerced); cells outside them are violations.",
+   tech="TLA+ scenario spec (visibility matrix, type gate, instantiability) enumerated by TLC; every scenario rendered as a class fixture and replayed on the real interpreter, verdict and no-effect compared with the reference, deviations classified by the spec's deviation layer"),
 }
 NOT_YET = "check not built yet in this round (planned: TLA+ spec + conformance binding, see DESIGN.md §5)"
 def main():
